@@ -546,6 +546,18 @@ func (g *TxGen) make(t tx.TxType) *draft {
 			if kind == "invalid" {
 				want = g.amount(Bip(1), "invalid")
 			}
+			if ci := g.coinInfo(to); ci != nil && to != 0 && R.Intn(4) == 0 {
+				// around the head-room below the maximum supply: exactly to the maximum, one unit and more beyond it
+				room := new(big.Int).Sub(BI(ci.MaxSupply), BI(ci.Volume))
+				if room.Sign() >= 0 {
+					want = []*big.Int{new(big.Int).Set(room), new(big.Int).Add(room, big.NewInt(1)), new(big.Int).Add(room, Bip(1)), new(big.Int).Mul(room, big.NewInt(2)),
+						new(big.Int).Add(room, new(big.Int).Div(room, big.NewInt(int64(2+R.Intn(50)))))}[R.Intn(5)]
+					if want.Sign() == 0 {
+						want.SetInt64(1)
+					}
+					d.note = "buy-around-max-supply"
+				}
+			}
 			d.data = tx.BuyCoinData{CoinToBuy: to, ValueToBuy: want, CoinToSell: from, MaximumValueToSell: g.limit(true)}
 		}
 	case tx.TypeCreateCoin, tx.TypeRecreateCoin:
